@@ -625,4 +625,18 @@ example : IStore.lastStored [([97], sampleIndex), ([98], sampleIndex), ([97], { 
 
 example : (IStore.Fate.run (.writeFails 7) false).failsPut = true ∧ IStore.Fate.busy.failsGet = true := by decide
 
+theorem sampleIndex_wf : WF .sha512_256 sampleIndex := by
+  refine ⟨by decide, ?_⟩
+  simp [sampleIndex, ChunksOK]
+
+/-- the hypotheses of `http_index_roundtrip` are satisfiable: a 503, then the handler's store cut short after
+    7 bytes (500), then an attempt that gets through, with a budget of 3 -/
+example :
+    (IStore.httpStore (clientNow 3 []) (serverNow ⟨[], true, false, false, true⟩ .sha512_256) [] [97] sampleIndex
+      [.busy, .run (.writeFails 7) false, .run .none false]).2 = (true, 3) := by
+  have h := http_index_roundtrip .sha512_256 3 [] ⟨[], true, false, false, true⟩ (Or.inl rfl) rfl rfl [] [97]
+    (by decide) sampleIndex sampleIndex_wf [.busy, .run (.writeFails 7) false] [] [] []
+    (by decide) (Or.inr (by decide)) (by decide) (Or.inl rfl)
+  exact Prod.ext h.1 h.2.1
+
 end Desync.C04
